@@ -9,6 +9,8 @@ The tables (`Gen/C11Tables.lean`) are regenerated from the current source on eve
 `servedKeys` = the version guards and the `case *kmsg.XRequest` arms of `handler.Handle` (go/ast), `kmsgTab` =
 kmsg's max / first-flexible versions.  The obligations below are re-checked against the regenerated tables
 by `lake build`; the `_sound` lemmas lift the executable checks to statements about EVERY (key, version).
+`skipResponseHeader_*`: the proxy's reading of a reply header is total, inverts `EncodeResponse`'s header for every key but
+ApiVersions (any well-formed tagged-field section), and refuses the boundary inputs.
 Partial (see checks/C11.py LEVEL_NOTE): that the response BODY decodes is validated exhaustively over the
 finite (key, version) space by the harness, not proved (kmsg is the codec).
 -/
@@ -102,5 +104,129 @@ example : Advertised [((3 : Int), (0 : Int), (12 : Int))] 3 9 := ⟨(3, 0, 12), 
 example : (replyHeader (fun k v => k == 3 && decide (9 ≤ v)) 3 9 7).length = 5 := by decide
 example : (replyHeader (fun k v => k == 3 && decide (9 ≤ v)) 3 8 7).length = 4 := by decide
 example : checkAdv [((1 : Int), (11 : Int), (14 : Int))] [1] [(1, -32768, 13)] [(1, 18, 12, 12)] = false := by decide
+
+/-! ### `SkipResponseHeader` (what the proxy does with a backend reply) -/
+/-- `SkipResponseHeader` never panics, whatever the backend sent. -/
+theorem skipResponseHeader_total (known : Int → Bool) (respFlex : Int → Int → Bool) (k v : Int) (data : Bytes) :
+    skipResponseHeader known respFlex k v data ≠ .panic := by
+  unfold skipResponseHeader
+  split
+  · simp
+  · rename_i h4
+    split
+    · simp
+    · split
+      · split
+        · simp
+        · rename_i h5
+          rw [goSlice_ok (by omega)]
+          simp only [GoResult.bind]
+          have hs := skipTagged_safe { buf := (data.drop (4 : Int).toNat).take ((data.length : Int) - 4).toNat, pos := 0 } ⟨by simp, by simp⟩
+          split
+          · rename_i r hr
+            obtain ⟨hb, hi, hp⟩ := hs.2 r hr
+            have hlen : (r.buf.length : Int) ≤ (data.length : Int) - 4 := by
+              rw [hb]; simp only [List.length_take, List.length_drop]; omega
+            have h1 := hi.1; have h2 := hi.2
+            rw [goSlice_ok (by omega)]
+            simp
+          · simp
+          · rename_i hp; exact absurd hp hs.1
+      · rw [goSlice_ok (by omega)]; simp [GoResult.bind]
+
+/-- Round trip with the response header as any Kafka peer writes it: correlation id, then — iff the response is flexible at that
+version — a well-formed tagged-field section (ours is always the empty one), then the body: `SkipResponseHeader` returns exactly
+the body. -/
+theorem skipResponseHeader_roundtrip (known : Int → Bool) (respFlex : Int → Int → Bool) (k v corr : Int)
+    (tags : List (Nat × Bytes)) (htw : TagsWf tags) (body : Bytes) (hk : known k = true) :
+    skipResponseHeader known respFlex k v (putU32 (twos 32 corr) ++ (if respFlex k v then encodeTags tags else []) ++ body)
+      = .ok (some body) := by
+  unfold skipResponseHeader
+  have hl4 : (putU32 (twos 32 corr)).length = 4 := rfl
+  by_cases hf : respFlex k v = true
+  · simp only [hf, if_true]
+    have hpos : 0 < (encodeTags tags).length := by
+      unfold encodeTags putUvarint
+      have := putUvarintAux_length_pos 9 tags.length
+      simp only [List.length_append]; omega
+    have h4 : ¬ ((putU32 (twos 32 corr) ++ encodeTags tags ++ body).length < 4) := by simp only [List.length_append]; omega
+    have h5 : ¬ ((4 : Int) ≥ ((putU32 (twos 32 corr) ++ encodeTags tags ++ body).length : Nat)) := by
+      simp only [List.length_append]; push_cast; omega
+    simp only [h4, if_false, hk, Bool.not_true, Bool.false_eq_true, h5]
+    have ht : goSlice (putU32 (twos 32 corr) ++ (encodeTags tags ++ body)) 4
+        ((putU32 (twos 32 corr) ++ (encodeTags tags ++ body)).length : Nat) = .ok (encodeTags tags ++ body) := by
+      have := goSlice_tail (putU32 (twos 32 corr)) (encodeTags tags ++ body)
+      rw [hl4] at this; exact_mod_cast this
+    rw [List.append_assoc, ht]
+    simp only [GoResult.bind]
+    have hsk : skipTagged { buf := encodeTags tags ++ body, pos := 0 }
+        = .ok { buf := encodeTags tags ++ body, pos := 0 + ((encodeTags tags).length : Int) } :=
+      skipTagged_at { buf := encodeTags tags ++ body, pos := 0 } [] body tags htw rfl rfl
+    rw [hsk]
+    simp only
+    have hg := goSlice_tail (putU32 (twos 32 corr) ++ encodeTags tags) body
+    rw [List.append_assoc] at hg
+    have hpos2 : (4 : Int) + (0 + ((encodeTags tags).length : Int)) = ((putU32 (twos 32 corr) ++ encodeTags tags).length : Nat) := by
+      simp only [List.length_append, hl4]; push_cast; omega
+    rw [hpos2, hg]
+  · have hf' : respFlex k v = false := by simpa using hf
+    simp only [hf', Bool.false_eq_true, if_false, List.append_nil]
+    have h4 : ¬ ((putU32 (twos 32 corr) ++ body).length < 4) := by simp only [List.length_append]; omega
+    simp only [h4, if_false, hk, Bool.not_true, Bool.false_eq_true]
+    have ht : goSlice (putU32 (twos 32 corr) ++ body) 4 ((putU32 (twos 32 corr) ++ body).length : Nat) = .ok body := by
+      have := goSlice_tail (putU32 (twos 32 corr)) body
+      rw [hl4] at this; exact_mod_cast this
+    rw [ht]; rfl
+
+
+/-- What the broker writes, the proxy reads back: for every key other than ApiVersions, every version and correlation id,
+`SkipResponseHeader` applied to the reply header of `EncodeResponse` followed by any body returns exactly that body. -/
+theorem skipResponseHeader_reply (known : Int → Bool) (respFlex : Int → Int → Bool) (k v corr : Int) (body : Bytes)
+    (hk : known k = true) (h18 : k ≠ 18) :
+    skipResponseHeader known respFlex k (replyVersion k v) (replyHeader respFlex k v corr ++ body) = .ok (some body) := by
+  have hv : replyVersion k v = v := by simp [replyVersion, h18]
+  have := skipResponseHeader_roundtrip known respFlex k v corr [] ⟨by decide, by simp⟩ body hk
+  rw [hv]
+  unfold replyHeader responseHeader encodeResponseHeader flexibleHeader
+  rw [hv]
+  have hne : (k != 18) = true := by simp [h18]
+  simp only [hne, Bool.and_true]
+  have he : encodeTags [] = [0] := by decide
+  rw [he] at this
+  by_cases hf : respFlex k v = true
+  · simp only [hf, if_true] at this ⊢; exact this
+  · have hf' : respFlex k v = false := by simpa using hf
+    simp only [hf', Bool.false_eq_true, if_false, List.append_nil] at this ⊢; exact this
+
+/-- Boundaries of `SkipResponseHeader`: fewer than 4 bytes, an unknown key, or a flexible version with nothing after the
+correlation id are refused (`nil, false`), never mis-sliced. -/
+theorem skipResponseHeader_short (known : Int → Bool) (respFlex : Int → Int → Bool) (k v : Int) (data : Bytes)
+    (h : data.length < 4 ∨ known k = false ∨ (respFlex k v = true ∧ data.length = 4)) :
+    skipResponseHeader known respFlex k v data = .ok none := by
+  unfold skipResponseHeader
+  rcases h with h | h | ⟨hf, h⟩
+  · simp [h]
+  · split
+    · rfl
+    · simp [h]
+  · have h4 : ¬ (data.length < 4) := by omega
+    have h5 : (4 : Int) ≥ (data.length : Nat) := by omega
+    simp only [h4, if_false, hf, if_true, h5]
+    split <;> rfl
+
+/-- OBSERVATION (not reachable in the current code: `SkipResponseHeader` is called for Produce, Fetch and the group keys only):
+it has no ApiVersions exception, so on an ApiVersions v3+ reply — whose header `EncodeResponse` writes WITHOUT a tagged-field
+byte — it would take the first body byte for the tag count and return a shifted body. -/
+theorem skipResponseHeader_apiversions_shifted :
+    skipResponseHeader (fun _ => true) (fun k v => k == 18 && decide (3 ≤ v)) 18 3
+      (replyHeader (fun k v => k == 18 && decide (3 ≤ v)) 18 3 7 ++ [0, 0, 5]) = .ok (some [0, 5]) := by decide
+
+/-! non-vacuity / boundary instances -/
+example : TagsWf [(0, [1, 2])] := ⟨by decide, by decide⟩
+example : skipResponseHeader (fun _ => true) (fun _ _ => true) 0 9 ([0, 0, 0, 7] ++ encodeTags [(0, [1, 2])] ++ [9, 9]) = .ok (some [9, 9]) := by decide
+example : skipResponseHeader (fun _ => true) (fun _ _ => true) 0 9 [0, 0, 0, 7] = .ok none := by decide
+example : skipResponseHeader (fun _ => true) (fun _ _ => true) 0 9 [0, 0, 0, 7, 1, 0, 5, 1] = .ok none := by decide
+example : toInt32 (u32 ((replyHeader (fun _ _ => true) 3 9 (-2 ^ 31)).take 4)) = -2 ^ 31 := by decide
+example : toInt32 (u32 ((replyHeader (fun _ _ => false) 3 9 (2 ^ 31 - 1)).take 4)) = 2 ^ 31 - 1 := by decide
 
 end KafVerif.C11
